@@ -34,7 +34,7 @@ where
     }
 
     pub fn clear(&mut self) {
-        self.root_mut().take();
+        drop_nodes(self.root_mut().take());
         self.size = 0;
     }
 
@@ -389,6 +389,29 @@ impl<K, V> DoubleEndedIterator for IntoIter<K, V> {
 }
 
 impl<K, V> ExactSizeIterator for IntoIter<K, V> {}
+
+impl<K, V> Drop for IntoIter<K, V> {
+    fn drop(&mut self) {
+        drop_nodes(self.cur.take());
+    }
+}
+
+/// Frees a (sub)tree without recursion. Dropping a `Box<Node>` recursively would need stack
+/// space proportional to the height of the tree, which is linear for sorted insertions.
+fn drop_nodes<K, V>(root: Option<Box<Node<K, V>>>) {
+    let mut cur = root;
+    while let Some(mut node) = cur {
+        cur = match node.pop_left() {
+            Some(mut left) => {
+                // rotate right, so that the root eventually has no left child
+                node.left = left.pop_right();
+                left.right = Some(node);
+                Some(left)
+            }
+            None => node.pop_right(),
+        };
+    }
+}
 
 /// Performs a top-down splay operation on a tree rooted at `node`. This will
 /// modify the pointer to contain the new root of the tree once the splay
